@@ -421,6 +421,13 @@ def cmd_check(args):
         for hook in hooks:
             import kani_driver
             extra_results.append(kani_driver.run(hook, scratch, tier))
+        if tier == "thorough":
+            # the trusted prelude is cross-checked against the real dependencies (a differential test, not a proof)
+            import crosscheck_driver
+            xr = crosscheck_driver.run(scratch)
+            xr["obligations"] = 0
+            xr["violations"] = []
+            extra_results.append(xr)
         rc = report(pid, pc, tier, seed, results, extra_results, time.time() - t0)
     finally:
         shutil.rmtree(scratch, ignore_errors=True)
@@ -626,7 +633,7 @@ def report(pid, pc, tier, seed, results, extra_results, wall):
             "checker_cmd": " ; ".join(cmds + [e.get("cmd", "") for e in extra_results]),
             "trusted_base": trusted,
             "explanation": pc.get("explanation", ""),
-            "backend": "verus 0.2026.09.13 / z3" + (" + kani 0.68 / cbmc" if extra_results else ""),
+            "backend": "verus 0.2026.09.13 / z3" + (" + kani 0.68 / cbmc" if any(e.get("name") in ("contract_wrapper", "encode_length") for e in extra_results) else "") + (" + cargo test (prelude cross-check, a differential test)" if any(e.get("name") == "prelude_crosscheck" for e in extra_results) else ""),
             "labelled_clauses": len(my_clauses),
             "verus_verified_items": verified_items,
             "functions_under_contract": functions,
@@ -637,7 +644,8 @@ def report(pid, pc, tier, seed, results, extra_results, wall):
             "unspecified_std_functions": havocs,
             "not_covered": pc.get("not_covered", []),
             "spec_sha256": spec_hashes,
-            "kani": kani_ev,
+            "kani": [k for k in kani_ev if k.get("name") != "prelude_crosscheck"],
+            "prelude_crosscheck": [k for k in kani_ev if k.get("name") == "prelude_crosscheck"],
             "proof_stability": EXTRA_EVIDENCE.get("proof_stability", []),
             "negative_controls": EXTRA_EVIDENCE.get("negative_controls", []),
             "status": status,
